@@ -110,6 +110,7 @@ def run(ctx, idx):
         other = [n for n in c.find("raise") if n not in rz]
         ok = c.exit not in c.reachable() and rz and not other
         ctx.ob("C13.c", con, rel, fn.lineno, ok, "SyntaxError on every path" if ok else "%s can return normally or raise another type" % nm)
+    grammar_action_types(ctx, idx, "C13.c", lexicon)
     dfas = {r.name: RL.dfa(r.pattern) for r in lexicon.rules}
     for r in lexicon.rules:
         if r.kind != "func":
@@ -140,6 +141,7 @@ def run(ctx, idx):
         else:
             ctx.hold("C13.c", con, rel, fn.lineno, "conversions proven safe by language inclusion / guarded")
     exception_construct(ctx, idx, "C13.d")
+    str_methods_total(ctx, idx, "C13.d")
     # ------------------------------------------------------------------ e
     cli = idx.func("mpilot.cli.mpilot", "main")
     c = K.cfg_of(idx, cli)
@@ -263,3 +265,141 @@ def exception_construct(ctx, idx, rule, only_module=None, floors=True):
     if floors:
         ctx.floor(rule, "raise sites constructing MPilot errors", n_ct, 40)
     return n_sup, n_ct
+
+
+def str_methods_total(ctx, idx, rule):
+    """__str__ of every MPilot error formats without raising: placeholder counts match, no star-args of unknown length"""
+    import string
+
+    root, excs = tables.exception_classes(idx)
+    n = 0
+    for ci in excs:
+        m = ci.methods.get("__str__")
+        if m is None:
+            continue
+        n += 1
+        probs = []
+        for c in own_nodes(m.node):
+            if isinstance(c, ast.Call) and isinstance(c.func, ast.Attribute) and c.func.attr == "format" and isinstance(c.func.value, ast.Constant) and isinstance(c.func.value.value, str):
+                fields = [f for _, f, _, _ in string.Formatter().parse(c.func.value.value) if f is not None]
+                auto = [f for f in fields if f == "" or f.isdigit()]
+                star = [a for a in c.args if isinstance(a, ast.Starred)]
+                if star:
+                    probs.append((c.lineno, "`%s` spreads a value of unknown length over %d placeholder(s): a shape of another rank raises IndexError while the message is printed" % (K.src(star[0])[:40], len(auto))))
+                else:
+                    need = len([f for f in auto if f == ""]) or (max([int(f) for f in auto if f.isdigit()] + [-1]) + 1)
+                    if need > len(c.args):
+                        probs.append((c.lineno, "format string has %d positional placeholder(s) but %d argument(s)" % (need, len(c.args))))
+            if isinstance(c, ast.Call) and isinstance(c.func, ast.Attribute) and c.func.attr == "join" and c.args and isinstance(c.args[0], ast.Attribute) and c.args[0].attr in ("parameters",):
+                pass
+        con = "%s::%s.__str__::total" % (ci.module.rel, ci.name)
+        if probs:
+            ctx.violate(rule, con, ci.module.rel, probs[0][0], "%s.__str__ can raise instead of producing the message: %s" % (ci.name, probs[0][1]))
+        else:
+            ctx.hold(rule, con, ci.module.rel, m.node.lineno, "placeholders and arguments agree", nontrivial=False)
+    ctx.floor(rule, "__str__ methods of MPilot errors", n, 20)
+
+
+# ---------------------------------------------------------------------------------------------- grammar action types
+def grammar_action_types(ctx, idx, rule, lexicon):
+    """Infer the value type of every nonterminal (str / num / list / dict / node / tuple) by fixpoint over the productions
+    and check that each action's operators are defined on the types its symbols can have."""
+    tok_types = {"STRING": {"str"}, "PLAIN_STRING": {"str"}, "ID": {"str"}, "TRUE": {"str"}, "FALSE": {"str"}, "INT": {"num"}, "FLOAT": {"num"}}
+    types = {nt: set() for nt in lexicon.nonterminals()}
+    problems = {}
+
+    def sym_types(sym):
+        if sym in types:
+            return types[sym]
+        return tok_types.get(sym, {"punct"})
+
+    def ev(e, prod, parg):
+        """set of possible types of expression e"""
+        if isinstance(e, ast.Subscript) and isinstance(e.value, ast.Name) and e.value.id == parg and isinstance(e.slice, ast.Constant):
+            i = e.slice.value
+            if 1 <= i <= len(prod.rhs):
+                return set(sym_types(prod.rhs[i - 1]))
+            return set()
+        if isinstance(e, ast.Constant):
+            return {"str"} if isinstance(e.value, str) else {"num"} if isinstance(e.value, (int, float)) else {"none"}
+        if isinstance(e, ast.List):
+            for x in e.elts:
+                ev(x, prod, parg)
+            return {"list"}
+        if isinstance(e, ast.Tuple):
+            for x in e.elts:
+                ev(x, prod, parg)
+            return {"tuple"}
+        if isinstance(e, ast.Dict):
+            return {"dict"}
+        if isinstance(e, ast.BinOp) and isinstance(e.op, ast.Add):
+            a, b = ev(e.left, prod, parg), ev(e.right, prod, parg)
+            out = set()
+            for x in a:
+                for y in b:
+                    if x == y and x in ("str", "list", "num", "tuple"):
+                        out.add(x)
+                    else:
+                        problems.setdefault((prod.func.name, K.src(e)), (e.lineno, "`%s` in `%s` adds a %s and a %s" % (K.src(e), prod, x, y)))
+            return out
+        if isinstance(e, ast.Call):
+            f = K.src(e.func)
+            args = [ev(a, prod, parg) for a in e.args]
+            if f == "str":
+                return {"str"}
+            if f == "dict":
+                for a in args:
+                    for t in a:
+                        if t not in ("list", "dict"):
+                            problems.setdefault((prod.func.name, K.src(e)), (e.lineno, "`%s` builds a dict from a %s" % (K.src(e), t)))
+                return {"dict"}
+            if f == "list":
+                return {"list"}
+            if f.endswith(".items"):
+                base = ev(e.func.value, prod, parg)
+                for t in base:
+                    if t != "dict":
+                        problems.setdefault((prod.func.name, K.src(e)), (e.lineno, "`%s` in `%s` calls .items() on a %s" % (K.src(e), prod, t)))
+                return {"list"}
+            if f.endswith(".lineno") or f.endswith("linespan"):
+                return {"num"}
+            if f and f[0].isupper():
+                return {"node"}
+            return {"any"}
+        if isinstance(e, ast.IfExp):
+            return ev(e.body, prod, parg) | ev(e.orelse, prod, parg)
+        return {"any"}
+
+    for _ in range(8):
+        problems.clear()
+        changed = False
+        for prod in lexicon.productions:
+            f = prod.func
+            parg = f.args.args[-1].arg
+            v = None
+            for n in ast.walk(f):
+                if isinstance(n, ast.Assign):
+                    for t in n.targets:
+                        if isinstance(t, ast.Subscript) and isinstance(t.value, ast.Name) and t.value.id == parg and isinstance(t.slice, ast.Constant) and t.slice.value == 0:
+                            v = n.value
+            if v is None:
+                continue
+            ts = ev(v, prod, parg)
+            if not ts <= types[prod.lhs]:
+                types[prod.lhs] |= ts
+                changed = True
+        if not changed:
+            break
+    rel = lexicon.mod.rel
+    seen = set()
+    for (fname, expr), (line, why) in sorted(problems.items()):
+        con = "%s::Parser.%s::action-types" % (rel, fname)
+        if con in seen:
+            continue
+        seen.add(con)
+        ctx.violate(rule, con, rel, line, "grammar action can raise TypeError instead of a syntax error: %s" % why)
+    for fname in sorted({p.func.name for p in lexicon.productions}):
+        con = "%s::Parser.%s::action-types" % (rel, fname)
+        if con not in seen:
+            ctx.hold(rule, con, rel, 0, "operators defined on every type its symbols can carry", nontrivial=False)
+    ctx.extra["nonterminal_types"] = {k: sorted(v) for k, v in types.items()}
